@@ -764,3 +764,170 @@ Proof.
   - destruct Hup as [E|E]; [contradiction|exact E].
   - rewrite <- (xoutbound_trace mark wc hw ops x e H), Ho, app_nil_r. reflexivity.
 Qed.
+
+(* ---- C03's liveness-within-the-model theorems over race-free histories of the x-machine ------- *)
+(* a history without stores is race-free *)
+Definition is_xset (o : xop) : bool := match o with XSet _ => true | _ => false end.
+
+Lemma race_free_no_store ops : forall x, forallb (fun o => negb (is_xset o)) ops = true -> race_free x ops.
+Proof.
+  induction ops as [|o ops IH]; intros x H; [exact I|].
+  cbn [forallb] in H. apply andb_prop in H as [Ho Hr]. cbn [race_free]. split.
+  - destruct o; try exact I. discriminate Ho.
+  - destruct (xstep x o) as [[x1 e1]| |]; try exact I. apply IH, Hr.
+Qed.
+
+(* the state a race-free history reaches satisfies the invariant: C03_shutdown_flushes_then_fin
+   holds there, and Base ops of the x-machine are the ops it talks about ([xstep_base]) *)
+Theorem xshutdown_flushes_then_fin : forall mark wc hw ops x e,
+  race_free (xinit mark wc hw) ops -> xrun (xinit mark wc hw) ops = Ok (x, e) ->
+  shutdown_flush_spec (xbase x) /\
+  forall o, xstep x (Base o) =
+    if (match o with RunOne _ => timer_due (xtimers x) | _ => false end) then Rejected else
+    match step (xbase x) o with
+    | Ok (c', e') => Ok (mkX c' (xreqs x) (xtimers_after (xbase x) o (xtimers x)), e')
+    | Rejected => Rejected
+    | Fault => Fault
+    end.
+Proof.
+  intros mark wc hw ops x e Hrf H.
+  destruct (xrun_race_free_once mark wc hw ops x e Hrf H) as [HI _].
+  split; [apply shutdown_flushes_then_fin_inv, HI|].
+  intros o. destruct x as [c reqs tm]. apply (xstep_base c reqs tm o HI).
+Qed.
+
+(* the loop's task steps: it runs the oldest functor of the real queue - an addTimerInLoop
+   ([XRunTimer]) or a functor of [pending] ([Base (RunOne k)]) *)
+Definition is_task (o : xop) : bool :=
+  match o with XRunTimer => true | Base (RunOne _) => true | _ => false end.
+Definition is_runone (o : xop) : bool := match o with Base (RunOne _) => true | _ => false end.
+
+Lemma task_no_store o : is_task o = true -> negb (is_xset o) = true.
+Proof. destruct o as [[]| | | |]; cbn; intros H; try discriminate; reflexivity. Qed.
+
+Lemma xstep_task_disconnected x o x' e : is_task o = true -> xstep x o = Ok (x', e) ->
+  st (xbase x) = Disconnected -> st (xbase x') = Disconnected.
+Proof.
+  intros Ht H Hs. destruct o as [b|t r|t|t|]; try discriminate Ht.
+  - apply xstep_Base_inv in H as (c' & E & ->). cbn [xbase].
+    destruct (rereg_fields (xbase x) c') as (-> & _). eapply step_disconnected_stays; eassumption.
+  - apply xstep_XRunTimer_inv in H as (r & _ & _ & ->). cbn [xbase]. rewrite creq_enqueue_st. exact Hs.
+Qed.
+
+Lemma xrun_tasks_disconnected ops : forall x x' e, forallb is_task ops = true -> xrun x ops = Ok (x', e) ->
+  st (xbase x) = Disconnected -> st (xbase x') = Disconnected.
+Proof.
+  induction ops as [|o ops IH]; intros x x' e Ht H Hs.
+  - cbn in H. injection H as <- _. exact Hs.
+  - cbn [forallb] in Ht. apply andb_prop in Ht as [Ho Hr].
+    apply xrun_cons in H as (x1 & e1 & e2 & H1 & H2 & _).
+    eapply (IH x1 x' e2 Hr H2). eapply xstep_task_disconnected; eassumption.
+Qed.
+
+(* a queued forced close is reached by the loop: with FForceClose at position n of the queue, any
+   sequence of task steps containing more than n RunOne steps ends Disconnected *)
+Lemma xforce_close_reached : forall ops x x' e pre0 post0,
+  XInv x -> pending (xbase x) = pre0 ++ FForceClose :: post0 ->
+  forallb is_task ops = true -> length pre0 < length (filter is_runone ops) ->
+  xrun x ops = Ok (x', e) -> st (xbase x') = Disconnected.
+Proof.
+  induction ops as [|o ops IH]; intros x x' e pre0 post0 HX Hp Ht Hn H.
+  - cbn in Hn. lia.
+  - cbn [forallb] in Ht. apply andb_prop in Ht as [Ho Hr].
+    apply xrun_cons in H as (x1 & e1 & e2 & H1 & H2 & _).
+    assert (HX1 : XInv x1).
+    { eapply xstep_xinv; [exact HX| |exact H1]. destruct o as [[]| | | |]; try discriminate Ho; exact I. }
+    destruct o as [b|t r|t|t|]; try discriminate Ho.
+    + destruct b; try discriminate Ho. cbn [filter is_runone length] in Hn.
+      apply xstep_Base_inv in H1 as (c' & E & ->).
+      destruct HX as [HI _].
+      rewrite (rereg_id _ _ _ _ HI E) in *.
+      destruct pre0 as [|f pre1].
+      * (* the forced close is the oldest functor *)
+        cbn [app] in Hp. eapply (xrun_tasks_disconnected ops _ x' e2 Hr H2). cbn [xbase].
+        destruct (st (xbase x)) eqn:Es.
+        -- exfalso. eapply inv_pending_not_connecting; [exact HI| |exact Es]. rewrite Hp. discriminate.
+        -- destruct (force_close_runs (xbase x) k post0 HI Hp (or_introl Es)) as (cx & Hx & Hd & _). congruence.
+        -- destruct (force_close_runs (xbase x) k post0 HI Hp (or_intror Es)) as (cx & Hx & Hd & _). congruence.
+        -- rewrite (force_close_late (xbase x) k post0 Hp Es) in E. injection E as <- _. exact Es.
+      * cbn [app] in Hp. destruct (runone_pops (xbase x) k f _ c' e1 E Hp) as [extra Hp1].
+        rewrite <- app_assoc in Hp1. cbn [app] in Hp1.
+        eapply (IH _ x' e2 pre1 (post0 ++ extra) HX1); [exact Hp1|exact Hr| |exact H2].
+        cbn [length] in Hn. lia.
+    + (* the loop runs a queued addTimerInLoop: the queue of [pending] is untouched *)
+      cbn [filter is_runone] in Hn.
+      apply xstep_XRunTimer_inv in H1 as (r & _ & _ & ->).
+      eapply (IH _ x' e2 pre0 post0 HX1); [|exact Hr|exact Hn|exact H2].
+      cbn [xbase creq_enqueue pending]. exact Hp.
+Qed.
+
+(* in a state satisfying the invariant exactly one kind of task step is enabled, and it never
+   faults nor is refused *)
+Theorem loop_task_enabled : forall x, XInv x ->
+  (timer_due (xtimers x) = true -> exists x', xstep x XRunTimer = Ok (x', [])) /\
+  (timer_due (xtimers x) = false -> forall k, exists x' e, xstep x (Base (RunOne k)) = Ok (x', e)).
+Proof.
+  intros x [HI _]. split.
+  - intros Hd. cbn [xstep]. destruct (xtimers x) as [|[|n] r]; try discriminate Hd. eauto.
+  - intros Hd k. cbn [xstep]. rewrite Hd.
+    destruct (runone_ok (xbase x) k HI) as (c' & e & -> & _). eauto.
+Qed.
+
+(* HEADLINE over the x-machine.  From a state reached by a race-free history in which the
+   connection is up: a forced close requested on the loop thread (ForceClose, a firing DelayFire) or
+   by a foreign thread (its hand-off XEnq, after its store) leaves FForceClose at the end of the
+   queue; then ANY sequence of the loop's task steps that contains more RunOne steps than functors
+   were queued before it - whatever the kernel answers, no peer event, the queued addTimerInLoop
+   functors interleaved as they come - ends Disconnected, with exactly one DOWN in the whole
+   history and none before the request *)
+Theorem xforce_close_effective : forall mark wc hw ops0 x e0,
+  race_free (xinit mark wc hw) ops0 -> xrun (xinit mark wc hw) ops0 = Ok (x, e0) ->
+  forall pre0 post0, pending (xbase x) = pre0 ++ FForceClose :: post0 ->
+  forall ops x' e, forallb is_task ops = true -> length pre0 < length (filter is_runone ops) ->
+  xrun x ops = Ok (x', e) ->
+  st (xbase x') = Disconnected /\ downs (xbase x') = 1 /\ count is_down (e0 ++ e) = 1 /\ count is_up (e0 ++ e) = 1.
+Proof.
+  intros mark wc hw ops0 x e0 Hrf H0 pre0 post0 Hp ops x' e Ht Hn H.
+  destruct (xrun_race_free ops0 _ (xinit_inv mark wc hw) Hrf) as [_ Hinv].
+  pose proof (Hinv x e0 H0) as HX.
+  assert (Hd : st (xbase x') = Disconnected) by (eapply xforce_close_reached; eassumption).
+  assert (Hrf2 : race_free x ops).
+  { apply race_free_no_store. clear -Ht. induction ops as [|o ops IH]; [reflexivity|].
+    cbn [forallb] in *. apply andb_prop in Ht as [Ho Hr]. rewrite (task_no_store o Ho), (IH Hr). reflexivity. }
+  destruct (xrun_race_free ops x HX Hrf2) as [_ Hinv2]. destruct (Hinv2 x' e H) as [HI' _].
+  pose proof (i_updown _ HI') as Hud. rewrite Hd in Hud. destruct Hud as [Hu Hdn].
+  destruct (xrun_updown ops0 _ _ _ H0) as [Hu0 Hd0]. destruct (xrun_updown ops _ _ _ H) as [Hu1 Hd1].
+  cbn in Hu0, Hd0. rewrite !count_app. repeat split; try assumption; lia.
+Qed.
+
+(* how the request puts FForceClose at the end of the queue *)
+Theorem xforce_close_requests : forall x, XInv x -> st (xbase x) = Connected \/ st (xbase x) = Disconnecting ->
+  (exists x1, xstep x (Base ForceClose) = Ok (x1, []) /\ pending (xbase x1) = pending (xbase x) ++ [FForceClose]) /\
+  (forall n, delayed (xbase x) = S n ->
+     exists x1, xstep x (Base DelayFire) = Ok (x1, []) /\ pending (xbase x1) = pending (xbase x) ++ [FForceClose]) /\
+  (forall t q, find_req t (xreqs x) = Some q -> rq_kind q = RForceClose -> rq_passed q = true -> rq_stored q = true ->
+     exists x1, xstep x (XEnq t) = Ok (x1, []) /\ pending (xbase x1) = pending (xbase x) ++ [FForceClose]).
+Proof.
+  intros x [HI _] Hup. destruct x as [c reqs tm]. cbn [xbase xreqs] in *. split; [|split].
+  - rewrite (xstep_base c reqs tm ForceClose HI), (force_close_up c Hup). eexists. split; reflexivity.
+  - intros n Hd. rewrite (xstep_base c reqs tm DelayFire HI), (delay_fire_up c n Hup Hd). eexists. split; reflexivity.
+  - intros t q Hf Hk Hp Hs. cbn [xstep xreqs xbase xtimers]. rewrite Hf, Hs, Hp, Hk. cbn [is_delay negb andb creq_enqueue].
+    eexists. split; reflexivity.
+Qed.
+
+Theorem force_close_once_foreign_partial : forall mark wc hw ops,
+  race_free (xinit mark wc hw) ops ->
+  xrun (xinit mark wc hw) ops <> Fault /\
+  forall x e, xrun (xinit mark wc hw) ops = Ok (x, e) ->
+    Inv (xbase x) /\ count is_up e <= 1 /\ count is_down e <= count is_up e /\
+    (count is_down e = 1 <-> st (xbase x) = Disconnected).
+Proof.
+  intros mark wc hw ops Hrf. split.
+  - apply (proj1 (xrun_race_free ops _ (xinit_inv mark wc hw) Hrf)).
+  - intros x e H. apply (xrun_race_free_once mark wc hw ops x e Hrf H).
+Qed.
+
+Lemma is_task_unfold : forall o,
+  is_task o = (match o with XRunTimer => true | Base (RunOne _) => true | _ => false end) /\
+  is_runone o = (match o with Base (RunOne _) => true | _ => false end).
+Proof. split; reflexivity. Qed.
